@@ -368,3 +368,23 @@ func (l Layout) DumpVersion(bucket map[string][]byte, name string) string {
 	}
 	return rec(*r.Link, 0)
 }
+
+// UncountedLeak recognises the invisible form of open finding KF-14 in a
+// walked version: the only problem is that the tree holds more entries than
+// the version records, and the surplus is covered by entries whose keys were
+// inserted by transactions that were rolled back on the writing connection.
+func (t *WTree) UncountedLeak(leakable map[string]bool) []string {
+	if t == nil || len(t.Missing) != 0 || len(t.Problems) != 1 || !strings.Contains(t.Problems[0], "records Size=") || len(leakable) == 0 {
+		return nil
+	}
+	var leaked []string
+	for _, e := range t.Entries {
+		if leakable[e.Key.Canon()] {
+			leaked = append(leaked, e.Key.Canon())
+		}
+	}
+	if surplus := len(t.Entries) - int(t.Root.Size); surplus > 0 && surplus <= len(leaked) {
+		return leaked
+	}
+	return nil
+}
